@@ -32,6 +32,7 @@ from core.report import Result
 from core.types import NONE, members
 
 from . import search as S
+from .searchrules import unresolved_subtree_sets
 from .c03_absint import Const, E, Interp, Opaque, Ref, Sc, Top, Tup, V
 from .common import guard_formula, stmt_of, types_of, where
 # anchors: modules and classes that other modules of pytestarch import by these names (nothing private)
@@ -52,7 +53,15 @@ ROLE_O = frozenset({"O"})
 
 def run_r1(repo: Repo, res: Result, rule_id: str = "C03.R1") -> None:
     n = 0
-    for m in S.models(repo):
+    try:
+        ms = S.models(repo)
+    except AnalysisError as e:
+        if rule_id != "C03.R1":
+            raise  # C12.MONO reports the search model's failure itself
+        # a search shape the model cannot read must not hide the verdicts of R2-R6
+        res.undecide(rule_id, "pytestarch/eval_structure/breadth_first_searches.py", f"search model: {e}")
+        return
+    for m in ms:
         if m.role != "other":
             continue
         fi = m.fi
@@ -67,6 +76,10 @@ def run_r1(repo: Repo, res: Result, rule_id: str = "C03.R1") -> None:
             n += 1
             goal = f_or([atom(f"{e.what} in {o}") for o in own] + [atom(f"{e.what} in {x}") for x in exc])
             ok = implies(e.guard, goal)
+            unresolved = [] if ok else unresolved_subtree_sets(m, e.guard, [e.what])
+            if unresolved:
+                res.undecide(rule_id, repo.key(fi, stmt_of(e.call)) + " [push stays inside subject or excluded objects]", f"`{e.what}` is pushed under `{e.guard_text}`: `{unresolved[0]}` is computed from sub-tree lookups in a way the model cannot relate to `{own[0]}` / `{exc[0]}`", where(fi, e.call))
+                continue
             res.add(
                 rule_id,
                 repo.key(fi, stmt_of(e.call)) + " [push stays inside subject or excluded objects]",
@@ -91,13 +104,18 @@ def run_r1(repo: Repo, res: Result, rule_id: str = "C03.R1") -> None:
         # popped nodes that belong to the excluded set are skipped before expansion
         if pushes:
             n += 1
-            g = guard_formula(fi, m.neighbour_call)
-            ok = all(implies(g, f_not(atom(f"{m.popped} in {x}"))) for x in exc)
-            res.add(rule_id, f"{fi.relpath}::{getattr(fi, 'shown', fi.qualname)}::excluded nodes are not expanded", ok, "popped nodes in the excluded set are skipped" if ok else f"a popped node in `{exc[0]}` is expanded: imports of the rule's objects are reported as the subject's", where(fi, m.neighbour_call), kind="dominance")
+            in_own = [atom(f"{m.popped} in {o}") for o in own]  # a module of the subject is expanded even when it lies inside an excepted object (D21)
+            ok = all(all(implies(m.guard_of(c), f_or([f_not(atom(f"{m.popped} in {x}")), *in_own])) for c in (m.neighbour_calls or [m.neighbour_call])) for x in exc)
+            unresolved = [] if ok else [x for c in (m.neighbour_calls or [m.neighbour_call]) for x in unresolved_subtree_sets(m, m.guard_of(c), [m.popped])]
+            if unresolved:
+                res.undecide(rule_id, f"{fi.relpath}::{getattr(fi, 'shown', fi.qualname)}::excluded nodes are not expanded", f"the expansion of `{m.popped}` is guarded by a test of `{unresolved[0]}`, which is computed from sub-tree lookups in a way the model cannot relate to `{exc[0]}`", where(fi, m.neighbour_call))
+                continue
+            res.add(rule_id, f"{fi.relpath}::{getattr(fi, 'shown', fi.qualname)}::excluded nodes are not expanded", ok, "popped nodes in the excluded set are skipped (unless they belong to the subject itself)" if ok else f"a popped node in `{exc[0]}` is expanded: imports of the rule's objects are reported as the subject's", where(fi, m.neighbour_call), kind="dominance")
         else:
             n += 1
             res.add(rule_id, f"{fi.relpath}::{getattr(fi, 'shown', fi.qualname)}::no push", True, "the search never extends its worklist beyond the subject's subtree", where(fi, fi.node), nontrivial=False)
-    res.floor(rule_id, 4, n)
+    if not any(u["rule"] == rule_id for u in res.undecided):  # an undecided search already says why fewer obligations were formed
+        res.floor(rule_id, 4, n)
 
 
 # --------------------------------------------------------------------------- shared: classes and entry points
